@@ -151,14 +151,16 @@ def judgePure (pm : PureMon) (ws : List String) (obs : String) : PureMon × List
   | "hex" :: "fromstr" :: _ => (pm, [])
   | "hex" :: _ =>
     let pm := { pm with hexLines := pm.hexLines + 1, panicsAgreed := pm.panicsAgreed + (if left = "panic" ∧ right = "panic" then 1 else 0) }
-    if left = right then (pm, []) else (pm, [("C15", s!"Hex answers '{left}', the byte slice answers '{right}'")])
+    if left = right then (pm, [])
+    else (pm, [("C15", s!"Hex answers '{left}', the byte slice answers '{right}'")] ++
+      (if (left.startsWith "panic") ∧ ¬ (right.startsWith "panic") then [("C07", s!"a Hex accessor panicked where the byte slice answers '{right}'")] else []))
   | ["label", "parse", t] =>
     let pm := { pm with labelLines := pm.labelLines + 1 }
     match parseTextTok t with
     | none => (pm, [])
     | some cs =>
       let o := words obs
-      if o.head? = some "panic" then (pm, [("C17", "from_str panicked")])
+      if o.head? = some "panic" then (pm, [("C17", "from_str panicked"), ("C07", "Label::from_str panicked: a text is never beyond a limit, the call must complete (with Err for a text that is no label)")])
       else if legalText cs then
         let pm := { pm with legalTexts := pm.legalTexts + 1 }
         match o with
